@@ -31,7 +31,7 @@ Items ==
   \cup { [k |-> "dq", s |-> c] : c \in {x \in Contents : DQOK(x)} }
   \cup { [k |-> "bq", s |-> c] : c \in {x \in Contents : BQOK(x)} }
   \cup { [k |-> o, s |-> <<>>] : o \in {"num", "var", "silentexpr", "silentstr", "let", "assign", "silentif", "silentfor", "comment", "silentraw", "silentcall", "fnout", "silentfn",
-                                       "escopen", "bslemit", "false", "zero", "emptystr", "nilv"} }
+                                       "escopen", "bslemit", "false", "zero", "emptystr", "nilv", "arrvar", "arrpair"} }
 
 \* the statement(s) an item stands for, and what it contributes to the output
 ItemStmts(it) ==
@@ -58,6 +58,9 @@ ItemStmts(it) ==
     [] it.k = "zero"       -> <<Emit(IntL(0))>>
     [] it.k = "emptystr"   -> <<Emit(Str(<<>>))>>
     [] it.k = "nilv"       -> <<Emit(Id("nil"))>>
+    \* an array value (every element is written, every time the array is emitted, also twice inside one array)
+    [] it.k = "arrvar"     -> <<Emit(Id("ys"))>>
+    [] it.k = "arrpair"    -> <<Emit(Arr(<<Id("ys"), Id("ys")>>))>>
     [] it.k = "fnout"      -> <<Emit(Call("pick", <<IntL(1)>>))>>
     [] it.k = "silentfn"   -> <<Code(Call("pick", <<IntL(1)>>))>>
 \* contribution according to the statement of C02 (w is "W" once an assign item has run)
@@ -71,6 +74,8 @@ ItemOut(it, assigned) ==
     [] it.k = "bslemit" -> <<"BSL", "7">>
     [] it.k = "false" -> <<"f", "a", "l", "s", "e">>
     [] it.k = "zero"  -> <<"0">>
+    [] it.k = "arrvar" -> <<"x", "y">>
+    [] it.k = "arrpair" -> <<"x", "y", "x", "y">>
     [] OTHER -> <<>>
 
 Places == {"top", "if", "for", "fn", "blk"}
@@ -83,7 +88,7 @@ Place(pl, ss) ==
 
 VARIABLES items, place, res
 vars == <<items, place, res>>
-Data == [w |-> S(<<"w">>)]
+Data == [w |-> S(<<"w">>), ys |-> A(<<S(<<"x">>), S(<<"y">>)>>)]
 
 Stmts == Flat([i \in 1..Len(items) |-> ItemStmts(items[i])])
 Pick == Let("pick", FnLit(<<"n">>, <<Code(If(Bin("==", Id("n"), IntL(1)), <<Ret(Str(<<"o", "n", "e">>))>>)), Ret(Str(<<"o", "t", "h", "e", "r">>))>>))
